@@ -136,6 +136,58 @@ def run(tools, seed, tier):
                 for cid, res in ex.map(regen_one, sel):
                     regen[cid] = res
             t_regen = time.time() - t0
+            # C20: every interface of a multi-interface run also generated alone (same package, same flags);
+            # the mock must have the same type parameters, methods and signatures as types
+            alone_cases, alone_of = [], {}
+            for o in obs:
+                c = byid[o["id"]]
+                fx = facts.get(o["id"]) or {}
+                if o["kind"] != "out" or fx.get("parse_error") or len(c["args"]) < 2 or len(set(c["args"])) != len(c["args"]):
+                    continue
+                if tier == "quick" and not (set(c.get("tags") or []) & {"adv", "shape"}) and len(alone_cases) > 400:
+                    continue
+                for k, a in enumerate(c["args"]):
+                    ac = dict(c, id="%s@alone%d" % (c["id"], k), args=[a], repeat=0, fmts=False)
+                    alone_cases.append(ac)
+                    alone_of.setdefault(o["id"], []).append(ac["id"])
+            alone_diff = {}
+            if alone_cases:
+                aobs = {o["id"]: o for o in l2.run_impl(tools, alone_cases, root)}
+                afin, afout = os.path.join(root, "afacts_in.jsonl"), os.path.join(root, "afacts_out.jsonl")
+                with open(afin, "w") as f:
+                    for ac in alone_cases:
+                        o = aobs.get(ac["id"])
+                        if o and o["kind"] == "out":
+                            f.write(json.dumps(dict(id=ac["id"], dir=ac["dir"], pkg=ac["pkg"], text=o["text"],
+                                                    typecheck=False)) + "\n")
+                p = C.sh([tools.vh, "facts", "-in", afin, "-out", afout, "-j", str(C.NCPU)], timeout=3600)
+                afacts = {}
+                if p.returncode == 0:
+                    for l in open(afout):
+                        fx = json.loads(l)
+                        afacts[fx["id"]] = fx
+
+                def names_of(o):
+                    return {strip_vendor(a): b for a, b in re.findall(r'mkPkg "([^"]*)" "([^"]*)"', o.get("input") or "")}
+                for o in obs:
+                    if o["id"] not in alone_of:
+                        continue
+                    joint = l2.typed_signatures(facts.get(o["id"]), names_of(o))
+                    diffs = []
+                    for aid in alone_of[o["id"]]:
+                        ao, afx = aobs.get(aid), afacts.get(aid)
+                        if not ao or ao["kind"] != "out" or not afx or afx.get("parse_error"):
+                            continue      # alone it is rejected or unparsable: nothing to compare with
+                        for mname, sigs in l2.typed_signatures(afx, names_of(ao)).items():
+                            js = joint.get(mname)
+                            if js is None:
+                                diffs.append("%s: generated alone it exists, in the joint output it does not" % mname)
+                            elif sigs[0] not in js:
+                                a_only = [x for x in sigs[0] if x not in js[0]]
+                                j_only = [x for x in js[0] if x not in sigs[0]]
+                                diffs.append("%s: alone %s / together %s" % (mname, a_only[:3], j_only[:3]))
+                    alone_diff[o["id"]] = diffs
+            t_alone = time.time() - t0
             verdicts, skipped, errors = l2.evaluate(obs, "l2", facts)
             t_coq = time.time() - t0
             # checkers on the lifted programs
@@ -155,7 +207,7 @@ def run(tools, seed, tier):
             canon = dict(canon)
             t_canon = time.time() - t0
             res = dict(seed=seed, tier=tier, stats=stats, errors=[e[1][-1500:] for e in errors + cerrors],
-                       timing=dict(impl=t_impl, facts=t_facts, coq=t_coq, canon=t_canon), cases=[])
+                       timing=dict(impl=t_impl, facts=t_facts, regen=t_regen, alone=t_alone, coq=t_coq, canon=t_canon), cases=[])
             for o in obs:
                 c = byid[o["id"]]
                 fx = facts.get(o["id"]) or {}
@@ -174,6 +226,7 @@ def run(tools, seed, tier):
                     case=c, kind=o["kind"], text=o["text"], ms=o.get("ms"),
                     repeats=o.get("repeats", 0), nondet=o.get("nondet"), fmt=o.get("fmt"), sigs=o.get("sigs"),
                     regen=regen.get(o["id"]), writes=o.get("writes"), fail_write=o.get("fail_write"),
+                    alone_diff=alone_diff.get(o["id"]),
                     src_pkg=dict(path=mi.group(1), name=mi.group(2)) if mi else {},
                     src_specs=src_specs(inp),
                     pkg_names={strip_vendor(a): b for a, b in pk},
